@@ -45,13 +45,20 @@ abbrev Fs := List (Path × Node)
 
 def empty : Fs := [([], .dir)]
 
-def get (fs : Fs) (k : Path) : Option Node := List.lookup k fs
+def get : Fs → Path → Option Node
+  | [], _ => none
+  | e :: r, k => if k = e.1 then some e.2 else get r k
 def set (fs : Fs) (k : Path) (n : Node) : Fs := (k, n) :: fs
 def del (fs : Fs) (k : Path) : Fs := fs.filter (fun e => e.1 != k)
 
 def parent (p : Path) : Path := p.dropLast
 def isDir (fs : Fs) (p : Path) : Bool := get fs p == some .dir
 def isFile (fs : Fs) (p : Path) : Bool := match get fs p with | some (.file _) => true | _ => false
+
+/-- tree shape: every entry's parent is a directory (what any real file system guarantees) -/
+def WF (fs : Fs) : Prop := ∀ e ∈ fs, e.1 = [] ∨ get fs (parent e.1) = some .dir
+
+instance (fs : Fs) : Decidable (WF fs) := by unfold WF; infer_instance
 
 /-- `p` and `q` exchanged as path prefixes (used by the directory rename; `q`'s subtree is empty there) -/
 def swapKey (p q k : Path) : Path :=
